@@ -13,13 +13,14 @@ use std::fmt::Write as _;
 use syn::*;
 
 #[derive(Clone, Debug, PartialEq)]
-enum Ty { U8, U32, U64, I32, I64, Bool, W(usize), RMode, Tuple(Vec<Ty>), Unit, Unknown }
+enum Ty { U8, U32, U64, I32, I64, Bool, W(usize), RMode, Class, F64U, F32U, DecDigits, Generic(String), Tuple(Vec<Ty>), Unit, Unknown }
 
 impl Ty {
     fn lean(&self) -> String {
         match self {
             Ty::U8 => "UInt8".into(), Ty::U32 => "UInt32".into(), Ty::U64 => "UInt64".into(), Ty::I32 => "Int32".into(),
-            Ty::I64 => "Int64".into(), Ty::Bool => "Bool".into(), Ty::W(n) => format!("U{}", n), Ty::RMode => "RoundingMode".into(),
+            Ty::I64 => "Int64".into(), Ty::Bool => "Bool".into(), Ty::W(n) => format!("U{}", n), Ty::RMode => "RoundingMode".into(), Ty::Class => "ClassTypes".into(),
+            Ty::F64U => "F64U".into(), Ty::F32U => "F32U".into(), Ty::DecDigits => "DecDigits".into(), Ty::Generic(g) => format!("{}'", g),
             Ty::Tuple(v) => format!("({})", v.iter().map(|t| t.lean()).collect::<Vec<_>>().join(" × ")),
             Ty::Unit => "Unit".into(), Ty::Unknown => "_".into(),
         }
@@ -69,7 +70,9 @@ fn ty_of_type(t: &Type) -> (Ty, bool) {
                 "u64" | "BID_UINT64" | "usize" => Ty::U64, "u32" | "BID_UINT32" | "_IDEC_flags" => Ty::U32, "u8" => Ty::U8,
                 "i32" => Ty::I32, "i64" | "BID_SINT64" => Ty::I64, "bool" => Ty::Bool,
                 "BID_UINT128" | "d128" => Ty::W(128), "BID_UINT192" => Ty::W(192), "BID_UINT256" => Ty::W(256),
-                "BID_UINT384" => Ty::W(384), "BID_UINT512" => Ty::W(512), "RoundingMode" => Ty::RMode,
+                "BID_UINT384" => Ty::W(384), "BID_UINT512" => Ty::W(512), "RoundingMode" => Ty::RMode, "ClassTypes" => Ty::Class,
+                "BID_UI64DOUBLE" => Ty::F64U, "BID_UI32FLOAT" => Ty::F32U, "DEC_DIGITS" => Ty::DecDigits,
+                g if g.len() == 1 && g.chars().all(|c| c.is_ascii_uppercase()) => Ty::Generic(g.to_string()),
                 _ => Ty::Unknown,
             };
             (ty, false)
@@ -88,7 +91,10 @@ fn has_be_cfg(attrs: &[Attribute]) -> bool {
 
 struct Out { lines: Vec<String> }
 
-struct FnCtx<'a> { cx: &'a mut Ctx, name: String, outs: Vec<String>, ret: Ty, tmp: usize }
+#[derive(Clone)]
+enum Tail { No, Ret, Into(Expr) }
+
+struct FnCtx<'a> { cx: &'a mut Ctx, name: String, outs: Vec<String>, ret: Ty, tmp: usize, pre: Vec<String>, loops: Vec<Option<String>> }
 
 macro_rules! bail { ($($t:tt)*) => { return Err(format!($($t)*)) } }
 type R<T> = std::result::Result<T, String>;
@@ -109,7 +115,10 @@ impl<'a> FnCtx<'a> {
         // base.w[k]  ->  (base, k)
         if let Expr::Index(ix) = e {
             if let Expr::Field(f) = &*ix.expr {
-                if let Member::Named(n) = &f.member { if n == "w" { if let Some(k) = lit_usize(&ix.index) { return Some(((*f.base).clone(), k)); } } }
+                if let Member::Named(n) = &f.member { if n == "w" {
+                    if let Some(k) = lit_usize(&ix.index) { return Some(((*f.base).clone(), k)); }
+                    if let Expr::Path(p) = &*ix.index { if let Some((_, ce)) = self.cx.consts.get(&path_str(&p.path)) { if let Some(k) = lit_usize(ce) { return Some(((*f.base).clone(), k)); } } }
+                } }
             }
         }
         None
@@ -134,6 +143,16 @@ impl<'a> FnCtx<'a> {
                 let s = path_str(&p.path);
                 if let Some(t) = env.get(&s) { return Ok(ex(id(&s), t.clone(), false)); }
                 if let Some(v) = s.strip_prefix("RoundingMode::") { return Ok(ex(format!("RoundingMode.{}", v), Ty::RMode, false)); }
+                if let Some(v) = s.strip_prefix("ClassTypes::") { return Ok(ex(format!("ClassTypes.{}", v), Ty::Class, false)); }
+                match s.as_str() {
+                    "i64::MIN" => return Ok(ex("(Int64.ofInt (-9223372036854775808))".into(), Ty::I64, false)),
+                    "i64::MAX" => return Ok(ex("(Int64.ofInt 9223372036854775807)".into(), Ty::I64, false)),
+                    "i32::MIN" => return Ok(ex("(Int32.ofInt (-2147483648))".into(), Ty::I32, false)),
+                    "i32::MAX" => return Ok(ex("(Int32.ofInt 2147483647)".into(), Ty::I32, false)),
+                    "u32::MAX" => return Ok(ex("(0xffffffff : UInt32)".into(), Ty::U32, false)),
+                    "u64::MAX" => return Ok(ex("(0xffffffffffffffff : UInt64)".into(), Ty::U64, false)),
+                    _ => {}
+                }
                 let cname = s.replace("::", "_");
                 if let Some((ty, _)) = self.cx.consts.get(&s).cloned() {
                     if !self.cx.used_consts.contains(&s) { self.cx.used_consts.push(s.clone()); }
@@ -172,7 +191,7 @@ impl<'a> FnCtx<'a> {
                         let elem = tb.elem.clone();
                         let i = self.expr(&ix.index, env)?;
                         let i_s = self.cast(&i, &Ty::U64)?;
-                        let acc = match elem { Ty::U64 => "tbl64", Ty::U32 => "tbl32", Ty::U8 => "tbl8", Ty::I32 => "tblI32", Ty::W(128) => "tbl128", Ty::W(192) => "tbl192", Ty::W(256) => "tbl256", _ => bail!("table element type of {}", t) };
+                        let acc = match elem { Ty::U64 => "tbl64", Ty::U32 => "tbl32", Ty::U8 => "tbl8", Ty::I32 => "tblI32", Ty::W(128) => "tbl128", Ty::W(192) => "tbl192", Ty::W(256) => "tbl256", Ty::DecDigits => "tblDD", _ => bail!("table element type of {}", t) };
                         self.cx.used_tables.insert(t.clone());
                         return Ok(ex(format!("(← {} Dec.Gen.{} {})", acc, t, paren(&i_s)), elem, true));
                     }
@@ -202,12 +221,25 @@ impl<'a> FnCtx<'a> {
                         if k + 1 < n { s = format!("{}.1", s); }
                         Ok(ex(s, ts[k].clone(), b.m))
                     }
+                    (Member::Named(n), Ty::DecDigits) => { let (f, t) = match n.to_string().as_str() { "digits" => ("digits", Ty::U32), "digits1" => ("digits1", Ty::U32), "threshold_hi" => ("threshold_hi", Ty::U64), "threshold_lo" => ("threshold_lo", Ty::U64), o => bail!("DEC_DIGITS field {}", o) }; Ok(ex(format!("{}.{}", paren(&b.s), f), t, b.m)) }
+                    (Member::Named(n), Ty::F64U) if n == "ui64" => Ok(ex(format!("{}.bits", paren(&b.s)), Ty::U64, b.m)),
+                    (Member::Named(n), Ty::F32U) if n == "ui32" => Ok(ex(format!("{}.bits", paren(&b.s)), Ty::U32, b.m)),
                     _ => bail!("field access {}", quote::quote!(#e)),
                 }
             }
             Expr::Binary(b) => {
                 let l = self.expr(&b.left, env)?; let r = self.expr(&b.right, env)?;
                 let m = l.m || r.m;
+                // give an untyped literal the type of the other operand (no reliance on Lean's unification through parentheses)
+                let (l, r) = {
+                    let (mut l, mut r) = (l, r);
+                    let shiftop = matches!(b.op, BinOp::Shl(_) | BinOp::Shr(_));
+                    if !shiftop {
+                        if l.untyped_lit && !r.untyped_lit && r.ty.is_int() { l = Ex { s: format!("({} : {})", l.s, r.ty.lean()), ty: r.ty.clone(), m: false, untyped_lit: false }; }
+                        if r.untyped_lit && !l.untyped_lit && l.ty.is_int() { r = Ex { s: format!("({} : {})", r.s, l.ty.lean()), ty: l.ty.clone(), m: false, untyped_lit: false }; }
+                    }
+                    (l, r)
+                };
                 let int_ty = if !l.untyped_lit && l.ty != Ty::Unknown { l.ty.clone() } else { r.ty.clone() };
                 let both_lit = l.untyped_lit && r.untyped_lit;
                 let arith = |op: &str| -> R<Ex> { Ok(Ex { s: format!("({} {} {})", l.s, op, r.s), ty: int_ty.clone(), m, untyped_lit: both_lit }) };
@@ -216,7 +248,7 @@ impl<'a> FnCtx<'a> {
                     BinOp::Add(_) => arith("+"), BinOp::Sub(_) => arith("-"), BinOp::Mul(_) => arith("*"), BinOp::Div(_) => arith("/"), BinOp::Rem(_) => arith("%"),
                     BinOp::BitAnd(_) => if l.ty == Ty::Bool { Ok(ex(format!("({} && {})", l.s, r.s), Ty::Bool, m)) } else { arith("&&&") },
                     BinOp::BitOr(_) => if l.ty == Ty::Bool { Ok(ex(format!("({} || {})", l.s, r.s), Ty::Bool, m)) } else { arith("|||") },
-                    BinOp::BitXor(_) => arith("^^^"),
+                    BinOp::BitXor(_) => if l.ty == Ty::Bool { Ok(ex(format!("({} != {})", l.s, r.s), Ty::Bool, m)) } else { arith("^^^") },
                     BinOp::Shl(_) | BinOp::Shr(_) => {
                         let op = if matches!(b.op, BinOp::Shl(_)) { "<<<" } else { ">>>" };
                         if !l.ty.is_int() { bail!("shift of {:?}", l.ty) }
@@ -245,7 +277,12 @@ impl<'a> FnCtx<'a> {
                     return Ok(ex(format!("(← RoundingMode.fromU32 {})", paren(&a_s)), Ty::RMode, true));
                 }
                 let sig = match self.cx.sigs.get(&f) { Some(s) => s, None => bail!("call of {} (not whitelisted)", f) };
-                if sig.params.iter().any(|p| p.2) { bail!("call of {} with &mut arguments in expression position", f) }
+                if sig.params.iter().any(|p| p.2) {
+                    let mut tmp_out = Out { lines: Vec::new() };
+                    let (v, t) = self.call_stmt(c, env, "", &mut tmp_out)?;
+                    self.pre.extend(tmp_out.lines);
+                    return Ok(ex(v, t, false));
+                }
                 let ret = sig.ret.clone();
                 let ptys: Vec<Ty> = sig.params.iter().map(|p| p.1.clone()).collect();
                 if ptys.len() != c.args.len() { bail!("arity of {}", f) }
@@ -258,6 +295,7 @@ impl<'a> FnCtx<'a> {
             }
             Expr::MethodCall(mc) => {
                 let m = mc.method.to_string();
+                if m == "clone" && mc.args.is_empty() { return self.expr(&mc.receiver, env); }
                 if m == "contains" {
                     if let Expr::Paren(p) = &*mc.receiver { if let Expr::Range(rg) = &*p.expr {
                         let x = self.expr(&mc.args[0], env)?;
@@ -364,20 +402,55 @@ impl<'a> FnCtx<'a> {
         false
     }
 
-    fn stmts(&mut self, b: &[Stmt], env: &mut Env, ind: &str, out: &mut Out, is_fn_tail: bool) -> R<()> {
+    fn flush(&mut self, ind: &str, out: &mut Out) { for l in self.pre.drain(..) { out.lines.push(format!("{}{}", ind, l)); } }
+
+    /// deliver the value `v` of a tail expression to where it goes
+    fn deliver(&mut self, v: &Ex, tail: &Tail, env: &Env, ind: &str, out: &mut Out) -> R<()> {
+        match tail {
+            Tail::No => { self.flush(ind, out); Ok(()) }           // value of an expression statement is dropped
+            Tail::Ret => {
+                let vs = if v.untyped_lit { format!("({} : {})", v.s, self.ret.lean()) } else { v.s.clone() };
+                let rt = self.ret_tuple(if self.ret == Ty::Unit { None } else { Some(vs) });
+                self.flush(ind, out);
+                out.lines.push(format!("{}return {}", ind, rt));
+                Ok(())
+            }
+            Tail::Into(lhs) => {
+                let tty = self.target_ty(lhs, env);
+                let vs = if v.untyped_lit && tty != Ty::Unknown { format!("({} : {})", v.s, tty.lean()) } else { v.s.clone() };
+                let st = self.assign_to(lhs, &vs, env)?;
+                self.flush(ind, out);
+                out.lines.push(format!("{}{}", ind, st));
+                Ok(())
+            }
+        }
+    }
+
+    fn stmts(&mut self, b: &[Stmt], env: &mut Env, ind: &str, out: &mut Out, tail: &Tail) -> R<()> {
         let n = b.len();
         for (i, s) in b.iter().enumerate() {
             let last = i + 1 == n;
+            // statements compiled only for big-endian targets do not exist in the build under test
+            let attrs: &[Attribute] = match s {
+                Stmt::Local(l) => &l.attrs,
+                Stmt::Expr(e, _) => match e { Expr::Call(c) => &c.attrs, Expr::Assign(a) => &a.attrs, Expr::MethodCall(m) => &m.attrs, Expr::Return(r) => &r.attrs, Expr::If(i) => &i.attrs, Expr::Block(b) => &b.attrs, Expr::Binary(b) => &b.attrs, Expr::Macro(m) => &m.attrs, Expr::Unsafe(u) => &u.attrs, _ => &[] },
+                Stmt::Macro(m) => &m.attrs,
+                _ => &[],
+            };
+            if has_be_cfg(attrs) { continue; }
+            if attrs.iter().any(|a| { let t = quote::quote!(#a).to_string(); t.contains("cfg") && !t.contains("target_endian") }) { bail!("statement under an unknown cfg") }
             match s {
                 Stmt::Local(l) => self.local(l, env, ind, out)?,
                 Stmt::Expr(e, semi) => {
-                    if last && semi.is_none() && is_fn_tail && !is_control(e) {
-                        // tail expression of the function
-                        let v = if self.callee_has_mut(e) { if let Expr::Call(c) = e { self.call_stmt(c, env, ind, out)?.0 } else { unreachable!() } } else { self.expr(e, env)?.s };
-                        let rt = self.ret_tuple(if self.ret == Ty::Unit { None } else { Some(v) });
-                        out.lines.push(format!("{}return {}", ind, rt));
+                    let t = if last && semi.is_none() { tail.clone() } else if last && matches!(tail, Tail::Ret) && is_control(e) { Tail::Ret } else { Tail::No };
+                    if is_control(e) || matches!(e, Expr::Assign(_)) || matches!(e, Expr::Binary(b) if is_assign_op(&b.op)) || matches!(e, Expr::Macro(_)) {
+                        self.stmt_expr(e, env, ind, out, &t)?;
+                    } else if matches!(t, Tail::No) {
+                        // expression statement: only calls make sense
+                        self.stmt_expr(e, env, ind, out, &t)?;
                     } else {
-                        self.stmt_expr(e, env, ind, out, last && is_fn_tail)?;
+                        let v = self.expr(e, env)?;
+                        self.deliver(&v, &t, env, ind, out)?;
                     }
                 }
                 Stmt::Item(_) => bail!("nested item"),
@@ -392,14 +465,24 @@ impl<'a> FnCtx<'a> {
         match pat {
             Pat::Ident(pi) => {
                 let name = pi.ident.to_string();
-                let init = match &l.init {
-                    Some(li) => {
-                        if self.callee_has_mut(&li.expr) { if let Expr::Call(c) = &*li.expr { let (v, t) = self.call_stmt(c, env, ind, out)?; if ty == Ty::Unknown { ty = t; } v } else { unreachable!() } }
-                        else { let x = self.expr(&li.expr, env)?; if ty == Ty::Unknown && !x.untyped_lit { ty = x.ty.clone(); } x.s }
+                // `let x = if .. { stmts; v } else { .. }` / match: declare first, then assign in the branches
+                if let Some(li) = &l.init {
+                    if is_control(&li.expr) && !self.simple_value(&li.expr) {
+                        if ty == Ty::Unknown { ty = self.guess_control_ty(&li.expr, env); }
+                        if ty == Ty::Unknown { bail!("cannot type local {}", name) }
+                        if env.contains_key(&name) { bail!("control-valued let shadows {}", name) }
+                        out.lines.push(format!("{}let mut {} : {} := default", ind, id(&name), ty.lean()));
+                        env.insert(name.clone(), ty);
+                        let lhs: Expr = parse_str(&name).map_err(|e| e.to_string())?;
+                        return self.stmt_expr(&li.expr, env, ind, out, &Tail::Into(lhs));
                     }
+                }
+                let init = match &l.init {
+                    Some(li) => { let x = self.expr(&li.expr, env)?; if ty == Ty::Unknown && !x.untyped_lit { ty = x.ty.clone(); } if x.untyped_lit && ty != Ty::Unknown { format!("({} : {})", x.s, ty.lean()) } else { x.s } }
                     None => "default".into(),
                 };
                 if ty == Ty::Unknown { bail!("cannot type local {}", name) }
+                self.flush(ind, out);
                 if let Some(prev) = env.get(&name) {
                     // Rust shadowing (`let mut C: T = C;`): Lean's `let mut` variables cannot be shadowed, and need not be
                     if *prev != ty { bail!("local {} shadows a variable of another type", name) }
@@ -412,16 +495,17 @@ impl<'a> FnCtx<'a> {
             }
             Pat::Tuple(pt) => {
                 let li = l.init.as_ref().ok_or("tuple let without init")?;
-                let (v, t) = if let Expr::Call(c) = &*li.expr { if self.callee_has_mut(&li.expr) { self.call_stmt(c, env, ind, out)? } else { let x = self.expr(&li.expr, env)?; (x.s, x.ty) } } else { let x = self.expr(&li.expr, env)?; (x.s, x.ty) };
-                let tys = match t { Ty::Tuple(ts) => ts, _ => bail!("tuple let of non-tuple") };
+                let x = self.expr(&li.expr, env)?;
+                let tys = match x.ty { Ty::Tuple(ts) => ts, _ => bail!("tuple let of non-tuple") };
                 let tmp = self.fresh();
-                out.lines.push(format!("{}let {} := {}", ind, tmp, v));
+                self.flush(ind, out);
+                out.lines.push(format!("{}let {} := {}", ind, tmp, x.s));
                 let nn = pt.elems.len();
                 for (k, p) in pt.elems.iter().enumerate() {
                     let name = match p { Pat::Ident(pi) => pi.ident.to_string(), Pat::Wild(_) => continue, _ => bail!("tuple let pattern") };
                     let mut s = tmp.clone(); for _ in 0..k { s = format!("{}.2", s); } if k + 1 < nn { s = format!("{}.1", s); }
-                    out.lines.push(format!("{}let mut {} : {} := {}", ind, id(&name), tys[k].lean(), s));
-                    env.insert(name, tys[k].clone());
+                    if env.contains_key(&name) { out.lines.push(format!("{}{} := {}", ind, id(&name), s)); }
+                    else { out.lines.push(format!("{}let mut {} : {} := {}", ind, id(&name), tys[k].lean(), s)); env.insert(name, tys[k].clone()); }
                 }
                 Ok(())
             }
@@ -429,18 +513,59 @@ impl<'a> FnCtx<'a> {
         }
     }
 
+    /// an if / block whose branches are single expressions (can stay an expression)
+    fn simple_value(&self, e: &Expr) -> bool {
+        match e {
+            Expr::If(i) => i.then_branch.stmts.len() == 1 && matches!(i.then_branch.stmts[0], Stmt::Expr(ref x, None) if !is_control(x))
+                && match &i.else_branch { Some((_, el)) => match &**el { Expr::Block(b) => b.block.stmts.len() == 1 && matches!(b.block.stmts[0], Stmt::Expr(ref x, None) if !is_control(x)), Expr::If(_) => self.simple_value(el), _ => false }, None => false },
+            _ => false,
+        }
+    }
+
+    /// type of the value of an if / match / block, from the first branch tail that can be typed
+    fn guess_control_ty(&mut self, e: &Expr, env: &Env) -> Ty {
+        fn tails<'x>(e: &'x Expr, out: &mut Vec<&'x Expr>) {
+            match e {
+                Expr::If(i) => { if let Some(Stmt::Expr(x, None)) = i.then_branch.stmts.last() { tails(x, out); } if let Some((_, el)) = &i.else_branch { tails(el, out); } }
+                Expr::Block(b) => { if let Some(Stmt::Expr(x, None)) = b.block.stmts.last() { tails(x, out); } }
+                Expr::Match(m) => { for a in m.arms.iter() { tails(&a.body, out); } }
+                other => out.push(other),
+            }
+        }
+        let mut ts = Vec::new(); tails(e, &mut ts);
+        for t in ts { let save = self.pre.len(); if let Ok(x) = self.expr(t, env) { self.pre.truncate(save); if !x.untyped_lit && x.ty != Ty::Unknown { return x.ty; } } else { self.pre.truncate(save); } }
+        Ty::Unknown
+    }
+
     fn cond(&mut self, e: &Expr, env: &Env) -> R<String> { let c = self.expr(e, env)?; if c.ty != Ty::Bool { bail!("condition of type {:?}", c.ty) } Ok(c.s) }
 
-    fn stmt_expr(&mut self, e: &Expr, env: &mut Env, ind: &str, out: &mut Out, fn_tail: bool) -> R<()> {
+    fn stmt_expr(&mut self, e: &Expr, env: &mut Env, ind: &str, out: &mut Out, tail: &Tail) -> R<()> {
         let ind2 = format!("{}  ", ind);
         match e {
             Expr::Assign(a) => {
+                // union store: `t.d = x as f64`
+                if let Expr::Field(f) = &*a.left {
+                    if let Member::Named(n) = &f.member {
+                        let base = self.expr(&f.base, env)?;
+                        if (base.ty == Ty::F64U && n == "d") || (base.ty == Ty::F32U && n == "d") {
+                            let src = match &*a.right { Expr::Cast(c) => self.expr(&c.expr, env)?, Expr::Paren(p) => match &*p.expr { Expr::Cast(c) => self.expr(&c.expr, env)?, _ => bail!("float store of a non-cast") }, _ => bail!("float store of a non-cast") };
+                            if !matches!(src.ty, Ty::U64 | Ty::U32 | Ty::U8) { bail!("float conversion from {:?}", src.ty) }
+                            let v = format!("(UInt64.ofInt (toI {}))", paren(&src.s));
+                            let conv = if base.ty == Ty::F64U { format!("(F64U.ofU64 {})", v) } else { format!("(F32U.ofU64 {})", v) };
+                            let st = self.assign_to(&f.base, &conv, env)?;
+                            self.flush(ind, out);
+                            out.lines.push(format!("{}{}", ind, st));
+                            return Ok(());
+                        }
+                    }
+                }
                 // tuple destructuring assignment
                 if let Expr::Tuple(t) = &*a.left {
-                    let (v, ty) = if let Expr::Call(c) = &*a.right { if self.callee_has_mut(&a.right) { self.call_stmt(c, env, ind, out)? } else { let x = self.expr(&a.right, env)?; (x.s, x.ty) } } else { let x = self.expr(&a.right, env)?; (x.s, x.ty) };
-                    if !matches!(ty, Ty::Tuple(_)) { bail!("tuple assignment of non-tuple") }
+                    let x = self.expr(&a.right, env)?;
+                    if !matches!(x.ty, Ty::Tuple(_)) { bail!("tuple assignment of non-tuple") }
                     let tmp = self.fresh();
-                    out.lines.push(format!("{}let {} := {}", ind, tmp, v));
+                    self.flush(ind, out);
+                    out.lines.push(format!("{}let {} := {}", ind, tmp, x.s));
                     let nn = t.elems.len();
                     for (k, p) in t.elems.iter().enumerate() {
                         let mut s = tmp.clone(); for _ in 0..k { s = format!("{}.2", s); } if k + 1 < nn { s = format!("{}.1", s); }
@@ -448,90 +573,98 @@ impl<'a> FnCtx<'a> {
                     }
                     return Ok(());
                 }
-                let tty = self.target_ty(&a.left, env);
-                let v = if self.callee_has_mut(&a.right) { if let Expr::Call(c) = &*a.right { self.call_stmt(c, env, ind, out)?.0 } else { unreachable!() } }
-                        else if is_control(&a.right) { self.value_of_control(&a.right, env)? }
-                        else { let x = self.expr(&a.right, env)?; if x.untyped_lit && tty != Ty::Unknown { format!("({} : {})", x.s, tty.lean()) } else { x.s } };
-                let st = self.assign_to(&a.left, &v, env)?;
-                out.lines.push(format!("{}{}", ind, st));
-                Ok(())
+                if is_control(&a.right) && !self.simple_value(&a.right) {
+                    return self.stmt_expr(&a.right, env, ind, out, &Tail::Into((*a.left).clone()));
+                }
+                let x = self.expr(&a.right, env)?;
+                self.deliver(&x, &Tail::Into((*a.left).clone()), env, ind, out)
             }
             Expr::Binary(b) if is_assign_op(&b.op) => {
                 let l = self.expr(&b.left, env)?; let r = self.expr(&b.right, env)?;
                 let v = match b.op {
                     BinOp::AddAssign(_) => format!("({} + {})", l.s, r.s), BinOp::SubAssign(_) => format!("({} - {})", l.s, r.s),
-                    BinOp::MulAssign(_) => format!("({} * {})", l.s, r.s), BinOp::BitAndAssign(_) => format!("({} &&& {})", l.s, r.s),
+                    BinOp::MulAssign(_) => format!("({} * {})", l.s, r.s), BinOp::BitAndAssign(_) => if l.ty == Ty::Bool { format!("({} && {})", l.s, r.s) } else { format!("({} &&& {})", l.s, r.s) },
                     BinOp::BitOrAssign(_) => if l.ty == Ty::Bool { format!("({} || {})", l.s, r.s) } else { format!("({} ||| {})", l.s, r.s) },
-                    BinOp::BitXorAssign(_) => format!("({} ^^^ {})", l.s, r.s),
+                    BinOp::BitXorAssign(_) => if l.ty == Ty::Bool { format!("({} != {})", l.s, r.s) } else { format!("({} ^^^ {})", l.s, r.s) },
                     BinOp::ShlAssign(_) | BinOp::ShrAssign(_) => { let op = if matches!(b.op, BinOp::ShlAssign(_)) { "<<<" } else { ">>>" }; let amt = if r.untyped_lit { r.s.clone() } else { self.cast(&r, &l.ty)? }; format!("({} {} {})", l.s, op, amt) }
                     _ => bail!("compound assignment operator"),
                 };
                 let st = self.assign_to(&b.left, &v, env)?;
+                self.flush(ind, out);
                 out.lines.push(format!("{}{}", ind, st));
                 Ok(())
             }
             Expr::If(i) => {
                 let c = self.cond(&i.cond, env)?;
+                self.flush(ind, out);
                 out.lines.push(format!("{}if {} then", ind, c));
                 let mut env_t = env.clone();
                 let before = out.lines.len();
-                self.stmts(&i.then_branch.stmts, &mut env_t, &ind2, out, fn_tail)?;
+                self.stmts(&i.then_branch.stmts, &mut env_t, &ind2, out, tail)?;
                 if out.lines.len() == before { out.lines.push(format!("{}pure ()", ind2)); }
                 if let Some((_, els)) = &i.else_branch {
                     match &**els {
-                        Expr::If(_) => { out.lines.push(format!("{}else", ind)); let mut env_e = env.clone(); self.stmt_expr(els, &mut env_e, &ind2, out, fn_tail)?; }
-                        Expr::Block(bl) => { out.lines.push(format!("{}else", ind)); let mut env_e = env.clone(); let before = out.lines.len(); self.stmts(&bl.block.stmts, &mut env_e, &ind2, out, fn_tail)?; if out.lines.len() == before { out.lines.push(format!("{}pure ()", ind2)); } }
+                        Expr::If(_) => { out.lines.push(format!("{}else", ind)); let mut env_e = env.clone(); self.stmt_expr(els, &mut env_e, &ind2, out, tail)?; }
+                        Expr::Block(bl) => { out.lines.push(format!("{}else", ind)); let mut env_e = env.clone(); let before = out.lines.len(); self.stmts(&bl.block.stmts, &mut env_e, &ind2, out, tail)?; if out.lines.len() == before { out.lines.push(format!("{}pure ()", ind2)); } }
                         _ => bail!("else form"),
                     }
-                }
+                } else if !matches!(tail, Tail::No | Tail::Ret) { bail!("value-producing if without else") }
                 Ok(())
             }
-            Expr::Match(m) => self.match_stmt(m, env, ind, out, fn_tail),
+            Expr::Match(m) => self.match_stmt(m, env, ind, out, tail),
             Expr::While(w) => {
                 let c = self.cond(&w.cond, env)?;
+                if !self.pre.is_empty() { bail!("call with &mut arguments in a loop condition") }
                 out.lines.push(format!("{}for _ in [0:4096] do", ind));
                 out.lines.push(format!("{}if !{} then break", ind2, paren(&c)));
+                if w.label.is_some() { bail!("labelled loop") }
                 let mut env_b = env.clone();
-                self.stmts(&w.body.stmts, &mut env_b, &ind2, out, false)?;
+                self.loops.push(None);
+                let r = self.stmts(&w.body.stmts, &mut env_b, &ind2, out, &Tail::No);
+                self.loops.pop();
+                r?;
                 let c2 = self.cond(&w.cond, env)?;
                 out.lines.push(format!("{}if {} then throw \"loop fuel exhausted\"", ind, c2));
                 Ok(())
             }
-            Expr::Return(r) => {
-                let v = match &r.expr {
-                    Some(x) => Some(if self.callee_has_mut(x) { if let Expr::Call(c) = &**x { self.call_stmt(c, env, ind, out)?.0 } else { unreachable!() } } else { let y = self.expr(x, env)?; if y.untyped_lit { format!("({} : {})", y.s, self.ret.lean()) } else { y.s } }),
-                    None => None,
-                };
-                out.lines.push(format!("{}return {}", ind, self.ret_tuple(v)));
+            Expr::Unsafe(u) => { let mut env_b = env.clone(); self.stmts(&u.block.stmts, &mut env_b, ind, out, tail) }
+            Expr::Loop(l) => {
+                if l.label.is_some() { bail!("labelled loop") }
+                let marker = format!("brk__{}", { self.tmp += 1; self.tmp });
+                out.lines.push(format!("{}let mut {} : Bool := false", ind, marker));
+                out.lines.push(format!("{}for _ in [0:4096] do", ind));
+                self.loops.push(Some(marker.clone()));
+                let mut env_b = env.clone();
+                let r = self.stmts(&l.body.stmts, &mut env_b, &ind2, out, &Tail::No);
+                self.loops.pop();
+                r?;
+                out.lines.push(format!("{}if !{} then throw \"loop fuel exhausted\"", ind, marker));
                 Ok(())
             }
-            Expr::Block(b) => { let mut env_b = env.clone(); self.stmts(&b.block.stmts, &mut env_b, ind, out, fn_tail) }
-            Expr::Call(c) => { let _ = self.call_stmt(c, env, ind, out)?; Ok(()) }
-            Expr::Paren(p) => self.stmt_expr(&p.expr, env, ind, out, fn_tail),
-            Expr::Macro(m) => { let n = path_str(&m.mac.path); if n == "panic" || n == "unreachable" { out.lines.push(format!("{}throw \"panic\"", ind)); Ok(()) } else { bail!("macro {}", n) } }
-            _ => bail!("statement form {}", quote::quote!(#e)),
-        }
-    }
-
-    /// `x = if c { a } else { b }` / `x = match ...` with single-expression arms
-    fn value_of_control(&mut self, e: &Expr, env: &Env) -> R<String> {
-        match e {
-            Expr::If(_) => Ok(self.expr(e, env)?.s),
-            Expr::Match(m) => {
-                let sc = self.expr(&m.expr, env)?;
-                let mut s = String::new(); let mut closes = 0; let mut any_m = sc.m;
-                for (k, arm) in m.arms.iter().enumerate() {
-                    let body = match &*arm.body { Expr::Block(b) => self.block_value(&b.block, env)?, other => self.expr(other, env)? };
-                    any_m |= body.m;
-                    let lastarm = k + 1 == m.arms.len();
-                    let c = self.arm_cond(&arm.pat, arm.guard.as_ref().map(|g| &*g.1), &sc, env)?;
-                    match c { Some(c) if !lastarm => { let _ = write!(s, "(if {} then (do pure {}) else ", c, body.s); closes += 1; } _ => { let _ = write!(s, "(do pure {})", body.s); break; } }
-                }
-                for _ in 0..closes { s.push(')'); }
-                let _ = any_m;
-                Ok(format!("(← {})", s))
+            Expr::Break(b) => {
+                if b.label.is_some() || b.expr.is_some() { bail!("labelled break / break with value") }
+                match self.loops.last() { Some(Some(m)) => { out.lines.push(format!("{}{} := true", ind, m)); } Some(None) => {} None => bail!("break outside a loop") }
+                out.lines.push(format!("{}break", ind));
+                Ok(())
             }
-            _ => bail!("control value"),
+            Expr::Continue(c) => { if c.label.is_some() { bail!("labelled continue") } out.lines.push(format!("{}continue", ind)); Ok(()) }
+            Expr::Return(r) => {
+                match &r.expr {
+                    Some(x) => { if is_control(x) && !self.simple_value(x) { return self.stmt_expr(x, env, ind, out, &Tail::Ret); } let v = self.expr(x, env)?; self.deliver(&v, &Tail::Ret, env, ind, out) }
+                    None => { self.flush(ind, out); out.lines.push(format!("{}return {}", ind, self.ret_tuple(None))); Ok(()) }
+                }
+            }
+            Expr::Block(b) => { let mut env_b = env.clone(); self.stmts(&b.block.stmts, &mut env_b, ind, out, tail) }
+            Expr::Call(c) => {
+                if self.callee_has_mut(e) || matches!(tail, Tail::No) {
+                    let (v, t) = self.call_stmt(c, env, ind, out)?;
+                    if !matches!(tail, Tail::No) { self.deliver(&ex(v, t, false), tail, env, ind, out)?; }
+                    Ok(())
+                } else { let v = self.expr(e, env)?; self.deliver(&v, tail, env, ind, out) }
+            }
+            Expr::Paren(p) => self.stmt_expr(&p.expr, env, ind, out, tail),
+            Expr::Macro(m) => { let n = path_str(&m.mac.path); if n == "panic" || n == "unreachable" { out.lines.push(format!("{}throw \"panic\"", ind)); Ok(()) } else { bail!("macro {}", n) } }
+            _ => { if matches!(tail, Tail::No) { bail!("statement form {}", quote::quote!(#e)) } let v = self.expr(e, env)?; self.deliver(&v, tail, env, ind, out) }
         }
     }
 
@@ -564,24 +697,26 @@ impl<'a> FnCtx<'a> {
         }
     }
 
-    fn match_stmt(&mut self, m: &ExprMatch, env: &mut Env, ind: &str, out: &mut Out, fn_tail: bool) -> R<()> {
+    fn match_stmt(&mut self, m: &ExprMatch, env: &mut Env, ind: &str, out: &mut Out, tail: &Tail) -> R<()> {
         let sc0 = self.expr(&m.expr, env)?;
         // evaluate the scrutinee once
         let t = self.fresh();
         let sty = if sc0.ty == Ty::Unknown { bail!("match scrutinee type") } else { sc0.ty.clone() };
+        self.flush(ind, out);
         out.lines.push(format!("{}let {} : {} := {}", ind, t, sty.lean(), sc0.s));
         let sc = ex(t, sty, false);
         let mut cur_ind = ind.to_string();
         let n = m.arms.len();
         for (k, arm) in m.arms.iter().enumerate() {
             let c = self.arm_cond(&arm.pat, arm.guard.as_ref().map(|g| &*g.1), &sc, env)?;
+            if !self.pre.is_empty() { bail!("call with &mut arguments in a match guard") }
             let body_ind = format!("{}  ", cur_ind);
             let mut env_a = env.clone();
-            if let Pat::Ident(pi) = &arm.pat { env_a.insert(pi.ident.to_string(), sc.ty.clone()); }
+            let bound = if let Pat::Ident(pi) = &arm.pat { let nme = pi.ident.to_string(); if env_a.contains_key(&nme) { bail!("match binding shadows {}", nme) } env_a.insert(nme.clone(), sc.ty.clone()); Some(nme) } else { None };
             let emit_body = |this: &mut Self, out: &mut Out, env_a: &mut Env, bi: &str| -> R<()> {
-                if let Pat::Ident(pi) = &arm.pat { out.lines.push(format!("{}let {} := {}", bi, id(&pi.ident.to_string()), sc.s)); }
+                if let Some(nme) = &bound { out.lines.push(format!("{}let mut {} : {} := {}", bi, id(nme), sc.ty.lean(), sc.s)); }
                 let before = out.lines.len();
-                match &*arm.body { Expr::Block(b) => this.stmts(&b.block.stmts, env_a, bi, out, fn_tail)?, other => this.stmt_expr(other, env_a, bi, out, fn_tail)? }
+                match &*arm.body { Expr::Block(b) => this.stmts(&b.block.stmts, env_a, bi, out, tail)?, other => this.stmt_expr(other, env_a, bi, out, tail)? }
                 if out.lines.len() == before { out.lines.push(format!("{}pure ()", bi)); }
                 Ok(())
             };
@@ -610,7 +745,7 @@ fn is_assign_op(op: &BinOp) -> bool {
     matches!(op, BinOp::AddAssign(_) | BinOp::SubAssign(_) | BinOp::MulAssign(_) | BinOp::DivAssign(_) | BinOp::RemAssign(_) | BinOp::BitXorAssign(_)
         | BinOp::BitAndAssign(_) | BinOp::BitOrAssign(_) | BinOp::ShlAssign(_) | BinOp::ShrAssign(_))
 }
-fn is_control(e: &Expr) -> bool { matches!(e, Expr::If(_) | Expr::Match(_) | Expr::While(_) | Expr::Block(_) | Expr::Return(_)) }
+fn is_control(e: &Expr) -> bool { matches!(e, Expr::If(_) | Expr::Match(_) | Expr::While(_) | Expr::Loop(_) | Expr::Break(_) | Expr::Continue(_) | Expr::Unsafe(_) | Expr::Block(_) | Expr::Return(_)) }
 fn strip_ref(e: &Expr) -> &Expr { match e { Expr::Reference(r) => strip_ref(&r.expr), Expr::Paren(p) => strip_ref(&p.expr), Expr::Unary(u) if matches!(u.op, UnOp::Deref(_)) => strip_ref(&u.expr), _ => e } }
 fn strip_deref(e: &Expr) -> &Expr { strip_ref(e) }
 fn paren(s: &str) -> String {
@@ -719,9 +854,9 @@ fn main() {
         if ret != Ty::Unit { rtys.push(ret.lean()); }
         for (_, t, m) in sig.params.iter() { if *m { rtys.push(t.lean()); } }
         let rty = match rtys.len() { 0 => "Unit".to_string(), 1 => rtys[0].clone(), _ => format!("({})", rtys.join(" × ")) };
-        let mut fc = FnCtx { cx: &mut cx, name: name.clone(), outs, ret: ret.clone(), tmp: 0 };
+        let mut fc = FnCtx { cx: &mut cx, name: name.clone(), outs, ret: ret.clone(), tmp: 0, pre: vec![], loops: vec![] };
         let mut out = Out { lines: Vec::new() };
-        let res = fc.stmts(&f.block.stmts, &mut env, "  ", &mut out, true);
+        let res = fc.stmts(&f.block.stmts, &mut env, "  ", &mut out, &Tail::Ret);
         let needs_final = ret == Ty::Unit;
         let final_ret = fc.ret_tuple(None);
         let _ = &fc.name;
@@ -729,7 +864,8 @@ fn main() {
             Ok(()) => {
                 let mut s = String::new();
                 let _ = writeln!(s, "/-- `{}` ({}) -/", name, fn_src.get(name).cloned().unwrap_or_default());
-                let _ = writeln!(s, "def {} {} : Except String {} := do", fn_name(name), header_params.join(" "), rty);
+                let gens: Vec<String> = f.sig.generics.type_params().map(|tp| format!("{{{}' : Type}} [Inhabited {}']", tp.ident, tp.ident)).collect();
+                let _ = writeln!(s, "def {} {} {} : Except String {} := do", fn_name(name), gens.join(" "), header_params.join(" "), rty);
                 for l in &prologue { let _ = writeln!(s, "{}", l); }
                 for l in &out.lines { let _ = writeln!(s, "{}", l); }
                 if needs_final { let _ = writeln!(s, "  return {}", final_ret); }
@@ -753,7 +889,7 @@ fn main() {
         if done.contains(&c) { continue; }
         let (ty, e) = cx.consts[&c].clone();
         let before = cx.used_consts.len();
-        let mut fc = FnCtx { cx: &mut cx, name: c.clone(), outs: vec![], ret: Ty::Unit, tmp: 0 };
+        let mut fc = FnCtx { cx: &mut cx, name: c.clone(), outs: vec![], ret: Ty::Unit, tmp: 0, pre: vec![], loops: vec![] };
         let env = HashMap::new();
         match fc.expr(&e, &env) {
             Ok(x) => {
